@@ -13,7 +13,8 @@ Oracle, clause by clause (DESIGN.md section 4, C10):
        declared-length framing is delivered, or answered with an OFPT_ERROR quoting it, or the connection is
        closed and nothing more is delivered from it;
  (v)   every decode starts at a boundary of the declared-length framing, consumes no more than the declared
-       length, and what is delivered is exactly what the declared bytes decode to on their own;
+       length, and what is delivered is exactly what the declared bytes decode to on their own; nothing but a
+       HELLO is delivered from a frame whose version byte is not 1;
  (vi)  no exception escapes the loop and the loop does not end.
 """
 import struct
@@ -551,6 +552,10 @@ def _judge(out, case, side, direction, loop, conns, roles, vstream, intact_expec
       if f[1] < 8 or end - start != f[1]:
         out.fail("decode-beyond-declared", "a message (type %r xid %r) was delivered from the frame at offset %d although the decoder "
                  "consumed %d bytes and the declared length is %d" % (sg[0], sg[1], start, end - start, f[1]), side=side, cause=c_here)
+        break
+      if f[4] != R.OFP_VERSION and f[2] != R.HELLO:
+        out.fail("bad-version-delivered", "a message of type %r carrying version 0x%02x (frame at offset %d) was delivered as an "
+                 "OpenFlow 1.0 message instead of being refused" % (f[2], f[4], start), side=side, cause=c_here)
         break
       own = C2.expect(vstream[start:start + f[1]])
       if own != sg:
